@@ -186,3 +186,73 @@ func verifPtrStarting(db *DB, start telem.TimeStamp) (pointer, bool) {
 	}
 	return pointer{}, false
 }
+
+// VerifC01LazyPersistReopen: domains committed by auto-committing writers whose index persistence is deferred
+// (the commit only updates the in-memory index unless the persist interval has elapsed on the arbitrary clock)
+// are all on disk once their writers are closed: after closing and reopening the DB a full scan returns every
+// domain with its bytes, whatever the order in which the writers ran and whichever commits happened to persist.
+func VerifC01LazyPersistReopen() {
+	n := verifLen("n", 1, verifParam("n", 3))
+	fs := xfs.NewMem()
+	db, err := Open(Config{FS: fs}) // default file size: no roll-over, one pointer per writer
+	if err != nil {
+		panic(err)
+	}
+	ctx := context.Background()
+	order := make([]int, 0, n)
+	for i := 0; i < n; i++ {
+		pos := i
+		if i > 0 {
+			pos = verifLen("write-order", 0, i)
+		}
+		order = append(order, 0)
+		copy(order[pos+1:], order[pos:])
+		order[pos] = i
+	}
+	yes := true
+	want := make([]verifContent, n)
+	writers := make([]*Writer, n)
+	// all writers are open at the same time: commits interleave, closes come last
+	for _, i := range order {
+		start := telem.TimeStamp(100 * (i + 1))
+		d1 := []byte{byte(16*(i+1) + 1), byte(16*(i+1) + 2)}
+		w, err := db.OpenWriter(ctx, WriterConfig{Start: start, EnableAutoCommit: &yes, AutoIndexPersistInterval: telem.Hour})
+		if err != nil {
+			panic(err)
+		}
+		writers[i] = w
+		if _, err = w.Write(d1); err != nil {
+			panic(err)
+		}
+		if err = w.Commit(ctx, start+10); err != nil {
+			panic(err)
+		}
+		want[i] = verifContent{tr: telem.TimeRange{Start: start, End: start + 10}, data: d1}
+	}
+	for i, w := range writers {
+		if verifBool("second-commit") {
+			start := telem.TimeStamp(100 * (i + 1))
+			if _, err = w.Write([]byte{byte(16*(i+1) + 3)}); err != nil {
+				panic(err)
+			}
+			if err = w.Commit(ctx, start+20); err != nil {
+				panic(err)
+			}
+			want[i].tr.End = start + 20
+			want[i].data = append(want[i].data, byte(16*(i+1)+3))
+		}
+	}
+	for _, w := range writers {
+		if err = w.Close(); err != nil {
+			panic(err)
+		}
+	}
+	before, ok := verifScan(db)
+	verifAssert("lazy-scan-before-ok", ok)
+	verifAssert("lazy-in-memory-exact", verifSameContent(before, want))
+	ndb := VerifReopen(db, fs)
+	after, ok := verifScan(ndb)
+	verifAssert("lazy-scan-after-reopen-ok", ok)
+	verifAssert("lazy-reopened-exact", verifSameContent(after, want))
+	verifReach("end")
+}
